@@ -39,8 +39,20 @@ pub enum VOp {
     RawRemove { key: String },
     /// try to write through the read-only view: must panic, must not change anything
     ReadOnlyWrite { path: Vec<String>, access: Access, key: String, remove: bool },
+    /// several operations on ONE held view object (a view must stay the same window however it has been used)
+    Session { path: Vec<String>, access: Access, mutable: bool, steps: Vec<SStep> },
     /// compare the view of `path` (and of `other`) completely
     Inspect { path: Vec<String>, access: Access, other: Vec<String> },
+}
+
+#[derive(Clone, Debug, Serialize, Deserialize)]
+pub enum SStep {
+    Set { key: String, value: String },
+    /// write the value the key already has (a redundant write); a fresh value if the key is absent
+    Rewrite { key: String },
+    Remove { key: String },
+    Get { key: String },
+    Range { start: Option<String>, end: Option<String>, desc: bool },
 }
 
 #[derive(Clone, Debug, Serialize, Deserialize)]
@@ -342,6 +354,79 @@ pub fn run_case(case: &Case, rep: &mut Report) -> Option<(String, String)> {
                 }
                 run.compare_raw(&app, &raw, &format!("after op #{} rejected read-only write", i));
             }
+            VOp::Session { path, access, mutable, steps } => {
+                let p = path_of(path);
+                let prefix = enc_path(&p);
+                let class = path_class(&p);
+                let mut model = raw.clone();
+                let mut bad: Option<(String, String)> = None;
+                let mut counts = (0u64, 0u64);
+                let r = catch(|| {
+                    let segs: Vec<&[u8]> = p.iter().map(|s| s.as_slice()).collect();
+                    let mut view: Box<dyn Storage + '_> = match (access, *mutable) {
+                        (Access::Single, true) => app.prefixed_storage_mut(&p[0]),
+                        (Access::Multi, true) => app.prefixed_multilevel_storage_mut(&segs),
+                        (Access::Single, false) => app.prefixed_storage(&p[0]),
+                        (Access::Multi, false) => app.prefixed_multilevel_storage(&segs),
+                    };
+                    for (j, st) in steps.iter().enumerate() {
+                        let rk = |k: &[u8]| [prefix.clone(), k.to_vec()].concat();
+                        match st {
+                            SStep::Set { key, value } if *mutable => {
+                                view.set(&unhex(key), &unhex(value));
+                                model.insert(rk(&unhex(key)), unhex(value));
+                                counts.0 += 1;
+                            }
+                            SStep::Rewrite { key } if *mutable => {
+                                let k = unhex(key);
+                                let v = model.get(&rk(&k)).cloned().unwrap_or_else(|| b"rw".to_vec());
+                                view.set(&k, &v);
+                                model.insert(rk(&k), v);
+                                counts.0 += 1;
+                            }
+                            SStep::Remove { key } if *mutable => {
+                                view.remove(&unhex(key));
+                                model.remove(&rk(&unhex(key)));
+                                counts.0 += 1;
+                            }
+                            SStep::Set { key, .. } | SStep::Rewrite { key } | SStep::Remove { key } | SStep::Get { key } => {
+                                let k = unhex(key);
+                                let got = view.get(&k);
+                                counts.1 += 1;
+                                if got != model.get(&rk(&k)).cloned() {
+                                    bad = Some((format!("held-view-get-differs:{}", class), format!("op #{} step {}: held view of {:?} get({}) = {:?}, raw store has {:?}", i, j, show_path(&p), short(&k), got.map(|v| short(&v)), model.get(&rk(&k)).map(|v| short(v)))));
+                                    return;
+                                }
+                            }
+                            SStep::Range { start, end, desc } => {
+                                let (s, e) = (start.as_ref().map(|x| unhex(x)), end.as_ref().map(|x| unhex(x)));
+                                let order = if *desc { Order::Descending } else { Order::Ascending };
+                                let got: Vec<(Vec<u8>, Vec<u8>)> = view.range(s.as_deref(), e.as_deref(), order).collect();
+                                let want = model_range(&window(&model, &prefix), s.as_deref(), e.as_deref(), order);
+                                counts.1 += 1;
+                                if got != want {
+                                    bad = Some((format!("held-view-range-differs:{}", class), format!("op #{} step {}: held view of {:?} range({:?},{:?},{:?}) yields {} entries, raw window has {}", i, j, show_path(&p), s.as_ref().map(|x| short(x)), e.as_ref().map(|x| short(x)), order, got.len(), want.len())));
+                                    return;
+                                }
+                            }
+                        }
+                    }
+                });
+                run.rep.add("c07/held_view_writes", counts.0);
+                run.rep.add("c07/held_view_reads_compared", counts.1);
+                run.rep.bump(if *mutable { "c07/op_session_mutable" } else { "c07/op_session_readonly" });
+                if let Err(e) = r {
+                    run.fail(format!("held-view-panics:{}", class), format!("op #{} session on {:?} panicked: {}", i, show_path(&p), e));
+                    break;
+                }
+                if let Some((sig, d)) = bad {
+                    run.fail(sig, d);
+                    break;
+                }
+                raw = model;
+                run.compare_raw(&app, &raw, &format!("after op #{} session on {:?}", i, show_path(&p)));
+                run.compare_view(&app, &raw, &p, access, false);
+            }
             VOp::Inspect { path, access, other } => {
                 let p = path_of(path);
                 let q = path_of(other);
@@ -484,6 +569,25 @@ pub fn gen_random(rng: &mut Rng, allow_huge: bool) -> Case {
                 rk.extend_from_slice(&k);
                 ops.push(VOp::RawRemove { key: hex(&rk) })
             }
+            16 | 17 => {
+                let n = rng.range(2, 9) as usize;
+                let mutable = rng.chance(4, 5);
+                let mut steps = vec![];
+                let mut recent: Vec<Vec<u8>> = vec![];
+                for _ in 0..n {
+                    let k = if !recent.is_empty() && rng.chance(1, 2) { rng.pick(&recent).clone() } else { gen_key(rng, &paths) };
+                    recent.push(k.clone());
+                    counter += 1;
+                    steps.push(match rng.below(10) {
+                        0..=2 => SStep::Set { key: hex(&k), value: hex(format!("s{}", counter).as_bytes()) },
+                        3..=4 => SStep::Rewrite { key: hex(&k) },
+                        5 => SStep::Remove { key: hex(&k) },
+                        6..=7 => SStep::Get { key: hex(&k) },
+                        _ => SStep::Range { start: if rng.chance(1, 2) { Some(hex(&k)) } else { None }, end: if rng.chance(1, 3) { Some(hex(&gen_key(rng, &paths))) } else { None }, desc: rng.chance(1, 2) },
+                    });
+                }
+                ops.push(VOp::Session { path: hexp(&p), access: a, mutable, steps })
+            }
             15 => ops.push(VOp::ReadOnlyWrite { path: hexp(&p), access: a, key: hex(&k), remove: rng.chance(1, 2) }),
             _ => {
                 let q = rng.pick(&paths).clone();
@@ -552,6 +656,21 @@ pub fn templates() -> Vec<Case> {
             ops.push(VOp::Set { path: hexp(p), access: Access::Single, key: hex(b"s"), value: hex(b"single") });
             ops.push(VOp::ReadOnlyWrite { path: hexp(p), access: Access::Single, key: hex(b"zz"), remove: false });
         }
+        ops.push(VOp::Session {
+            path: hexp(p),
+            access: Access::Multi,
+            mutable: true,
+            steps: vec![
+                SStep::Rewrite { key: hex(b"abc") },
+                SStep::Get { key: hex(b"abc") },
+                SStep::Set { key: hex(b"n"), value: hex(b"new") },
+                SStep::Remove { key: hex(b"absent") },
+                SStep::Range { start: None, end: None, desc: false },
+                SStep::Remove { key: hex(b"abc") },
+                SStep::Rewrite { key: hex(b"n") },
+                SStep::Range { start: Some(hex(b"a")), end: None, desc: true },
+            ],
+        });
         ops.push(VOp::Inspect { path: vec![], access: Access::Multi, other: hexp(p) });
         out.push(Case { ops, check_seed: 7 });
     }
